@@ -82,6 +82,10 @@ def _wrap_scan():
             except Exception as e:  # noqa: BLE001
                 HUB.acc.count("scan_model_errors")
                 HUB.acc.hist("scan_model_error", f"{type(e).__name__}: {e}"[:200])
+        if getattr(HUB, "auto_attribute", False):
+            # nobody drives this scan for a particular property (e.g. the repository's own tests):
+            # attribute by category
+            attribute_scan_findings(se, {"edge-missing": "C02", "edge-extra": "C02", "nodes": "C04", "external": "C10", "hierarchy": "C10" if not a["exclude_external_libraries"] else "C04"})
         HUB.scan_events.append(se)
         if len(HUB.scan_events) > 64:
             del HUB.scan_events[:-64]
@@ -526,6 +530,8 @@ def _wrap_draw():
             return orig_draw(G, *args, **kwargs)
         HUB.draw_calls.append({"nodes": frozenset(G.nodes), "args": args, "kwargs": dict(kwargs)})
         HUB.acc.count("draw_backend_calls")
+        if getattr(HUB, "draw_passthrough", False):
+            return orig_draw(G, *args, **kwargs)  # foreign drivers (the repository's tests) look at the figure
         return None
 
     draw_networkx._pta_orig = orig_draw
